@@ -82,10 +82,11 @@ CHECKS = {
         "groups": [
             {"pkg": "Havoc/pkg/common/builder", "entries": ["H_c13_options"], "shards": 9, "no_native_witness": True, "no_native_replay": True},
             {"pkg": "Havoc/pkg/common/builder", "entries": ["H_c13_hours"], "shards": 2, "no_native_witness": True, "no_native_replay": True},
+            {"pkg": "Havoc/pkg/common/builder", "entries": ["H_c13_service_name"], "no_native_witness": True, "no_native_replay": True},
             {"pkg": "Havoc/pkg/common/builder", "entries": ["H_c13_http"], "shards": 5, "no_native_witness": True, "no_native_replay": True},
         ],
-        "bounds": "options: Sleep 1..2 digits, Jitter 1..3 digits, every enumerated choice of allocation/execution/sleep technique/jump gadget/proxy loading/AMSI plus one 'other' value, stack duplication and indirect syscalls on/off, SMB listener with arbitrary 64-bit kill date; working hours: H[H]:MM-H[H]:MM with arbitrary digits. HTTP listener block: method POST/post/GET/get/empty, rotation round-robin/random/unset, connect port set (2 arbitrary digits) or unset (bind port used), 1..3 hosts each with or without its own 2-digit port, an unparsable connect or host port, TLS flag, user agent with one arbitrary printable character, 0..2 headers with and without a host header, 0..2 URIs, proxy on/off, arbitrary 64-bit kill date; a second build for the same listener yields a block of the same size.",
-        "outside": "IPv6 host literals, working hours inside the HTTP block (covered separately), compiler command line and shell quoting of the service name, Patch() of the binary, interface-name resolution, non-ASCII strings (UTF-16 encoder stubbed by its ASCII behaviour), regexp (decided by a hand-written matcher for the one pattern)",
+        "bounds": "options: Sleep 1..2 digits, Jitter 1..3 digits, every enumerated choice of allocation/execution/sleep technique/jump gadget/proxy loading/AMSI plus one 'other' value, stack duplication and indirect syscalls on/off, SMB listener with arbitrary 64-bit kill date; working hours: H[H]:MM-H[H]:MM with arbitrary digits. HTTP listener block: method POST/post/GET/get/empty, rotation round-robin/random/unset, connect port set (2 arbitrary digits) or unset (bind port used), 1..3 hosts each with or without its own 2-digit port, an unparsable connect or host port, TLS flag, user agent with one arbitrary printable character, 0..2 headers with and without a host header, 0..2 URIs, proxy on/off, arbitrary 64-bit kill date; a second build for the same listener yields a block of the same size. Service name (service executable payloads): every name of 1..2 arbitrary bytes either makes the build fail or consists of characters the shell takes as data, and the SERVICE_NAME define carries exactly the name.",
+        "outside": "IPv6 host literals, working hours inside the HTTP block (covered separately), the rest of the compiler command line (paths from the profile), Patch() of the binary, interface-name resolution, non-ASCII strings (UTF-16 encoder stubbed by its ASCII behaviour), regexp (decided by a hand-written matcher for the one pattern)",
         "min_completed": 3,
     },
     "C10": {
